@@ -348,11 +348,13 @@ theorem em_apiSubscribe (p : Nat) (a : SubArg) (q : Int) (hw : π.w p = true) : 
       · em
       · split
         · em
-        · apply em_makeId; intro i
-          generalize encodeWithId _ i _ = E
-          cases E with
-          | error e => em
-          | ok bs => exact em_registerSubUnsub _ _ _ _ hw
+        · split
+          · em
+          · apply em_makeId; intro i
+            generalize encodeWithId _ i _ = E
+            cases E with
+            | error e => em
+            | ok bs => exact em_registerSubUnsub _ _ _ _ hw
 theorem em_apiUnsubscribe (p : Nat) (a : UnsubArg) (hw : π.w p = true) : Emits π (apiUnsubscribe p a) := by
   unfold apiUnsubscribe
   apply em_read; intro w
@@ -365,11 +367,13 @@ theorem em_apiUnsubscribe (p : Nat) (a : UnsubArg) (hw : π.w p = true) : Emits 
     · em
     · split
       · em
-      · apply em_makeId; intro i
-        generalize encodeWithId _ i _ = E
-        cases E with
-        | error e => em
-        | ok bs => exact em_registerSubUnsub _ _ _ _ hw
+      · split
+        · em
+        · apply em_makeId; intro i
+          generalize encodeWithId _ i _ = E
+          cases E with
+          | error e => em
+          | ok bs => exact em_registerSubUnsub _ _ _ _ hw
 theorem em_apiSetWindow (p : Nat) (n : PyNum) : Emits π (apiSetWindow p n) := by unfold apiSetWindow; em
 theorem em_apiSetTimeout (p : Nat) (n : PyNum) : Emits π (apiSetTimeout p n) := by unfold apiSetTimeout; em
 theorem em_apiSetBandwith (p : Nat) (b f : Rat) : Emits π (apiSetBandwith p b f) := by unfold apiSetBandwith; em
